@@ -1,2 +1,30 @@
-(* C11.  Theorems are added here as they are proved. *)
-From PJ.Model Require Import Base.
+(* C11 -- bounded buffering on write, no read-ahead needed on parse. *)
+From PJ.Model Require Import Base Terms Encoder Streams Decoder.
+From PJ.Proofs Require Import EncoderProofs DecoderProofs.
+
+(* Write side: with a bounded flow (the flat delimited case) of frame size >= 1, after every
+   accepted statement fewer than frame_size rows are pending -- over whole inputs of any length. *)
+Theorem C11_pending_below_frame_size :
+  forall (stmts : list (list term)) (s s' : stream) (evs : list tev) (ok : bool),
+    bounded_stream s -> pending_ok s ->
+    (feed stream_triple stmts s = (s', evs, ok) \/ feed stream_quad stmts s = (s', evs, ok)) ->
+    pending_ok s' /\ bounded_stream s'.
+Proof.
+  intros stmts s s' evs ok Hb Hp [H|H].
+  - exact (feed_pending stream_triple stmts s s' evs ok stream_triple_pending step_err_keeps_flow_triple Hb Hp H).
+  - exact (feed_pending stream_quad stmts s s' evs ok stream_quad_pending step_err_keeps_flow_quad Hb Hp H).
+Qed.
+Print Assumptions C11_pending_below_frame_size.
+
+(* a constructed flow never has frame size 0 *)
+Theorem C11_frame_size_positive : forall k l fs, 1 <= fl_frame_size (flow_new k l fs).
+Proof. exact flow_new_frame_size. Qed.
+Print Assumptions C11_frame_size_positive.
+
+(* Read side: the items of frames 1..j are determined by frames 1..j alone. *)
+Theorem C11_no_read_ahead :
+  forall (ig : integ) (ak : adapter_kind) (po : poptions) (fs1 fs2 : list frame) (st : dstate),
+    exists tail, decode_frames ig ak po (fs1 ++ fs2) st = decode_frames ig ak po fs1 st ++ tail /\
+                 (last_err (decode_frames ig ak po fs1 st) <> None -> tail = []).
+Proof. exact frames_prefix. Qed.
+Print Assumptions C11_no_read_ahead.
